@@ -396,6 +396,17 @@ def global_selector_is_ownership_independent(ctx, rep, rule: str) -> None:
                 n += 1
                 arg = call.args[-1]
                 dep = mentions(arg)
+                # ... and on nothing about the gradient but its presence: the gradient variable may only occur as `g is None` /
+                # `g is not None` (an all-zero gradient is a gradient: the stateful recurrences still advance)
+                argx = ast.parse(A.expanded(fi.node, arg), mode="eval").body
+                presence_only = True
+                parents_ = {id(c_): p_ for p_ in ast.walk(argx) for c_ in ast.iter_child_nodes(p_)}
+                for x in ast.walk(argx):
+                    if isinstance(x, ast.Name) and "grad" in x.id and x.id not in sel_locals:
+                        par = parents_.get(id(x))
+                        if not (isinstance(par, ast.Compare) and len(par.ops) == 1 and isinstance(par.ops[0], (ast.Is, ast.IsNot)) and isinstance(par.comparators[0], ast.Constant) and par.comparators[0].value is None):
+                            presence_only = False
+                rep.ob(rule, f"global-selector-is-gradient-presence:{short(fi.qual)}", presence_only, fi.loc(call), f"`{ast.unparse(argx)[:90]}` written into the global gradient selector" + (" reads the gradient itself, not only whether it is None: a present gradient (e.g. all zeros) would be treated as absent" if not presence_only else " depends on the gradient only through `is None`"), sample=False)
                 # control dependence on an ownership test taints the value as well
                 cfg = CFG(fi.node)
                 ctl = [t for t, _ in cfg.branch_conditions(cfg.node_of(call)) if t.kind == "test" and mentions(t.ast.test)]
